@@ -193,6 +193,7 @@ class Exec:
         self.env = {}
         self.ctx = []
         self.effects = []        # (ctx tuple of str, text)
+        self.atoms = []          # structured effects: (ctx, primitive, argument values)
         self.unknown = []        # constructs not understood (make the summary unusable for conformance)
         self.loopn = 0
         self.fresh_n = 0
@@ -538,6 +539,7 @@ class Exec:
                 txt = '%s(%s)' % (m, ', '.join(show(x) for x in a))
             if txt is not None:
                 self.emit(txt)
+                self.atoms.append((tuple(self.ctx), m, a))
                 return Val('unit')
             return self.unk('GraphLike::' + m, e)
         r = self.ev(recv)
